@@ -127,6 +127,13 @@ void h_emit_monotone(void)
         V_ASSUME(finite_le(mn, TWO100) && finite_le(mx, TWO100) && mn <= mx);
         V_ASSUME(finite_le(a, TWO100) && finite_le(b, TWO100) && a <= b);              /* positive gain: b >= a */
         V_ASSUME(!isnan(x) && !isinf(x) && !isnan(y) && !isinf(y) && x <= y);
+#ifdef SPAN_POW2
+        /* restricted domain: the span b-a is zero or a power of two, so value*(b-a) only changes the exponent. Shows
+         * that the stages after the multiplication (add, clamp, roundf, conversion, threshold) keep the order; the
+         * general case needs "x <= y, d >= 0 => fl(x*d) <= fl(y*d)" (IEEE-754 round-to-nearest multiplication is
+         * monotone), which CBMC does not decide in an hour. */
+        V_ASSUME((c19_u(b - a) & 0x007fffffu) == 0);
+#endif
 #if defined(TYPE_I)
         V_ASSUME(AU->param_type == 'i');
         V_ASSUME(finite_le(mn, TWO30) && finite_le(mx, TWO30));
